@@ -472,6 +472,8 @@ structure St where
   w : WPc := .idle
   job : Option Job := none
   recov : Option Recov := none
+  /-- the open transaction: its entries so far, as the group they will be committed as -/
+  tr : Option Grp := none
   -- ghost
   issued : List Issue := []
   /-- first sequence number no group has been given -/
@@ -493,6 +495,13 @@ inductive Act
   | exit
   | recOpen
   | recStep
+  /-- a table compaction of the given live tables into one output table (not part of the proved core) -/
+  | compactStart (inputs : List Nat)
+  /-- `OpenTransaction` / `Transaction.Put…` / `Commit` / `Discard` (not part of the proved core) -/
+  | trBegin
+  | trPut (recs : List Batch.Rec)
+  | trCommit
+  | trDiscard
 
 def setStatus (g : Grp) (st : Status) (l : List Issue) : List Issue :=
   l.map fun i => if i.grp = g then { i with status := st } else i
@@ -501,7 +510,7 @@ def setStatus (g : Grp) (st : Status) (l : List Issue) : List Issue :=
 
 def stepWriter (cfg : Cfg) (s : St) (d : Disk) : Act → Option (St × Disk)
   | .wAppend recs sync o =>
-    if s.phase = .running ∧ s.w = .idle ∧ recs ≠ [] then
+    if s.phase = .running ∧ s.w = .idle ∧ recs ≠ [] ∧ s.tr = none then
       let g : Grp := ⟨s.seq + 1, recs, sync⟩
       let d' := d.exec (.writeJ s.jcur g) o
       if o.failed then
@@ -538,7 +547,7 @@ def stepWriter (cfg : Cfg) (s : St) (d : Disk) : Act → Option (St × Disk)
     | _ => none
   | .rotate o =>
     -- `newMem`, called from the write path while no group is in flight
-    if s.phase = .running ∧ s.w.quiet ∧ s.frozen = none then
+    if s.phase = .running ∧ s.w.quiet ∧ s.frozen = none ∧ s.tr = none then
       let n := s.nextFile
       let d' := d.exec (.create .journal n) o
       if o.failed then
@@ -588,7 +597,11 @@ def finishJob (s : St) (j : Job) : St :=
   | .recovFinal => { s with job := none, recov := none, phase := .running, mem := [], frozen := none,
                             jfrozen := none, w := .idle }
   | .compaction => { s with job := none }
-  | .tr => { s with job := none }
+  | .tr =>
+    -- `db.setSeq(tr.seq)`, the commit returns
+    match s.tr with
+    | some g => { s with job := none, tr := none, seq := g.fin - 1, hi := g.fin, issued := setStatus g .acked s.issued }
+    | none => { s with job := none }
 
 /-- error path of a failed step: recovery gives up, everything else is retried from `retry` -/
 def failTo (s : St) (j : Job) (retry : JPc) : St :=
@@ -724,6 +737,48 @@ def flushStart (s : St) : Option St :=
     | _, _ => none
   else none
 
+/-- `tableCompaction`: the entries of the input tables are merged into one output table (ghost content: the
+    union of their groups; the physical entries are `view`-equivalent by C03/C06), one edit deletes the inputs
+    and adds the output, the inputs are removed afterwards -/
+def compactStart (s : St) (d : Disk) (inputs : List Nat) : Option St :=
+  if s.phase = .running ∧ s.job = none ∧ inputs ≠ [] ∧ inputs.Nodup ∧ inputs.all (s.live.contains ·) then
+    let t := s.nextFile
+    let gs := inputs.flatMap fun i => ((lookup d.tables i).map (·.grps)).getD []
+    some { s with nextFile := t + 1,
+                  job := some { kind := .compaction, outs := [(t, gs)],
+                                edit := some { added := [t], deleted := inputs },
+                                rmTables := inputs, pc := .tCreate 0 } }
+  else none
+
+/-- the transaction protocol (`db_transaction.go`), with the pre-flush of `OpenTransaction` as a precondition:
+    nothing buffered, nothing frozen, no job -/
+def stepTr (s : St) : Act → Option St
+  | .trBegin =>
+    if s.phase = .running ∧ s.w = .idle ∧ s.mem = [] ∧ s.frozen = none ∧ s.job = none ∧ s.tr = none then
+      some { s with tr := some ⟨s.seq + 1, [], true⟩ }
+    else none
+  | .trPut recs =>
+    match s.tr with
+    | some g => if s.job = none then some { s with tr := some { g with recs := g.recs ++ recs } } else none
+    | none => none
+  | .trCommit =>
+    match s.tr with
+    | some g =>
+      if s.job = none then
+        if g.recs.isEmpty then some { s with tr := none }
+        else
+          let t := s.nextFile
+          some { s with nextFile := t + 1, issued := s.issued ++ [⟨g, .pending⟩],
+                        job := some { kind := .tr, outs := [(t, [g])],
+                                      edit := some { sq := some (g.fin - 1), added := [t] }, pc := .tCreate 0 } }
+      else none
+    | none => none
+  | .trDiscard =>
+    match s.tr with
+    | some _ => if s.job = none then some { s with tr := none } else none
+    | none => none
+  | _ => none
+
 /-! ## crash and recovery -/
 
 /-- the process ends: the in-memory state is gone, the ghost history stays -/
@@ -808,6 +863,11 @@ def step (cfg : Cfg) (s : St) (d : Disk) : Act → Option (St × Disk)
   | .exit => some (exitSt s, d)
   | .recOpen => (recOpen cfg s d).map (·, d)
   | .recStep => (recStep s d).map (·, d)
+  | .compactStart inputs => (compactStart s d inputs).map (·, d)
+  | .trBegin => (stepTr s .trBegin).map (·, d)
+  | .trPut recs => (stepTr s (.trPut recs)).map (·, d)
+  | .trCommit => (stepTr s .trCommit).map (·, d)
+  | .trDiscard => (stepTr s .trDiscard).map (·, d)
   | a => stepWriter cfg s d a
 
 /-- run a list of actions; `none` if one of them is not enabled -/
@@ -820,8 +880,18 @@ def run (cfg : Cfg) : St × Disk → List Act → Option (St × Disk)
 
 def Reachable (cfg : Cfg) (sd : St × Disk) : Prop := ∃ as, run cfg init as = some sd
 
-/-- no injected storage fault -/
+/-- an action of the core sub-protocol (write groups, buffer rotation, memdb flush, manifest rotation, crash,
+    exit, recovery) without an injected storage fault -/
 def Act.faultFree : Act → Bool
+  | .wAppend _ _ o => o = .ok
+  | .wSync o => o = .ok
+  | .rotate o => o = .ok
+  | .job _ o => o = .ok
+  | .compactStart _ | .trBegin | .trPut _ | .trCommit | .trDiscard => false
+  | _ => true
+
+/-- any action without an injected storage fault -/
+def Act.noFault : Act → Bool
   | .wAppend _ _ o => o = .ok
   | .wSync o => o = .ok
   | .rotate o => o = .ok
